@@ -36,7 +36,7 @@ class C11(scen.WorldProp):
                   "speeds through the real parse_peal_speed in every documented form, gaps 0..3, up to 40 rows, clock "
                   "origins 1e3..1.8e9, both rhythm wrappers, and touches that follow an accompanied touch of the same "
                   "session; the tick loop `soloTimes` that `solo_closed_form` is about is itself evaluated by the driver "
-                  "for each configuration and compared with the implementation's strike times; oracle: closed form on every strike (abs tol 2e-6 s). "
+                  "for each configuration and compared with the implementation's strike times; the same closed form proved for the real main loop World.run (world_solo_turn, world_solo_rows: any number of turns, each output stamped line time + hold-up); touches that follow an interrupted hold-up in server mode; oracle: closed form on every strike (abs tol 2e-6 s). "
                   "non-trivial = at least 3 rows rung")
 
     def after_accompanied(self, rng, tier):
